@@ -120,6 +120,7 @@ type termer struct {
 	memo  map[ssa.Value]*Term
 	fr    *frame
 	tagOf func(v ssa.Value) int // epoch of a field load (ordtab walker); nil outside walks
+	phiOf func(p *ssa.Phi) ssa.Value // the edge a phi took on the current path (ordtab walker)
 }
 
 func newTermer(fr *frame) *termer { return &termer{memo: map[ssa.Value]*Term{}, fr: fr} }
@@ -281,6 +282,11 @@ func (tm *termer) of1(v ssa.Value) *Term {
 	case *ssa.Call:
 		return tm.call(&x.Call, x)
 	case *ssa.Phi:
+		if tm.phiOf != nil {
+			if pv := tm.phiOf(x); pv != nil && pv != v {
+				return tm.of(pv)
+			}
+		}
 		var first *Term
 		same := true
 		for _, e := range x.Edges {
